@@ -44,7 +44,7 @@ func (*detEngine) Name() string        { return "determinism" }
 func (*detEngine) Property() string    { return "C10" }
 func (*detEngine) NumCases(tier string) int {
 	if tier == "thorough" {
-		return 60000
+		return 40000
 	}
 	return 1600
 }
